@@ -9,7 +9,7 @@ export CARGO_NET_OFFLINE=true
 mkdir -p .cache evidence replays
 coq/build.sh
 [ -f harness/Cargo.lock ] || cp /repo/Cargo.lock harness/Cargo.lock
-(cd harness && cargo build --offline --quiet)
+(cd harness && cargo build --offline --quiet --bins)
 python3 - <<'PY'
 import sys, os, glob
 sys.path.insert(0, "lib")
